@@ -68,6 +68,9 @@ def gen_case(rng: random.Random, tier: str) -> dict:
             y = rng.random()
             if y < 0.7:
                 steps.append({"op": "reindex"})
+                if rng.random() < 0.12:
+                    # fault: midnight strikes during the command, after a seeded number of clock reads
+                    steps[-1]["tick"] = rng.randrange(0, 5)
             else:
                 steps.append({"op": "reindex", "paths": {"pick": [rng.randrange(1000) for _ in range(rng.randint(1, 2))]}})
         else:
@@ -157,9 +160,16 @@ def expected_first_line(line: str, zid: str, today_short: str) -> Optional[str]:
     return head + today_short + " " + tail
 
 
-def check_after(sim: core.Sim, before_files: dict, model: dict, rec: hist.Rec, step: int, scratch: str) -> Optional[dict]:
+def check_after(sim: core.Sim, before_files: dict, model: dict, rec: hist.Rec, step: int, scratch: str, tick_from: Optional[int] = None) -> Optional[dict]:
+    """tick_from = the day the command started on when midnight struck during it:
+    "today" is then either of two days.  The relaxation is narrow: a stamp may carry
+    either day (but file and index must carry the SAME one), and notes already dated
+    one of the two days may or may not be in the stamp set; everything else is as strict
+    as without the fault."""
     today = _real_dt.date.fromordinal(sim.day)
-    today_short = today.strftime("%y%m%d")
+    days = [today] if tick_from is None else [_real_dt.date.fromordinal(tick_from), today]
+    shorts = [d.strftime("%y%m%d") for d in days]
+    either_day = {d.isoformat() for d in days} if tick_from is not None else set()
     after_files = {k: v.decode("utf-8") for k, v in ob.read_files(sim.zdir, (".zo",)).items()}
     S, new = model["S"], model["new"]
     ci = ob.canon_index(sim.db_path)
@@ -179,9 +189,9 @@ def check_after(sim: core.Sim, before_files: dict, model: dict, rec: hist.Rec, s
                 continue
             key = (rel, i + 1)
             if key in S:
-                want = expected_first_line(x, S[key]["cur"]["zid"], today_short)
-                if y != want:
-                    return hist.viol("stamp-rewrite-wrong", _stamp_cause(S[key]), step=step, page=rel, line=i + 1, before=x, after=y, expected=want)
+                wants = [expected_first_line(x, S[key]["cur"]["zid"], sh) for sh in shorts]
+                if y not in wants:
+                    return hist.viol("stamp-rewrite-wrong", _stamp_cause(S[key]), step=step, page=rel, line=i + 1, before=x, after=y, expected=wants)
                 hw = x[: x.find(S[key]["cur"]["zid"])].split(" ")
                 if len(hw) >= 2 and hw[-1] == "" and _SHORT.match(hw[-2]):
                     rec.probe("stamp-replaced")
@@ -194,6 +204,9 @@ def check_after(sim: core.Sim, before_files: dict, model: dict, rec: hist.Rec, s
                 rec.probe("zid-added-during-reindex")
             else:
                 cur = model["cf"]["notes"].get(key)
+                if cur is not None and cur["zid"] and cur["modify"] in either_day and y in [expected_first_line(x, cur["zid"], sh) for sh in shorts]:
+                    rec.probe("note-dated-on-tick-day-restamped")
+                    continue  # "already dated today" is ambiguous across the tick
                 cause = "not-a-note-first-line" if cur is None else "note-not-in-stamp-set"
                 return hist.viol("unexpected-line-change", cause, step=step, page=rel, line=i + 1, before=x, after=y)
     # every member of S got stamped (file) and is dated today (index)
@@ -201,12 +214,15 @@ def check_after(sim: core.Sim, before_files: dict, model: dict, rec: hist.Rec, s
         rel, line = key
         x = before_files[rel].split("\n")[line - 1]
         y = after_files[rel].split("\n")[line - 1]
-        want = expected_first_line(x, info["cur"]["zid"], today_short)
-        if y != want:
-            return hist.viol("stamp-missing-in-file", _stamp_cause(info), step=step, page=rel, line=line, before=x, after=y, expected=want)
+        wants = {expected_first_line(x, info["cur"]["zid"], d.strftime("%y%m%d")): d for d in days}
+        if y not in wants:
+            if info["cur"]["modify"] in either_day and y == x:
+                continue  # dated on the other side of the tick: legitimately not stamped
+            return hist.viol("stamp-missing-in-file", _stamp_cause(info), step=step, page=rel, line=line, before=x, after=y, expected=sorted(wants))
         n = ci["notes"].get(key)
-        if n is None or n["modify"] != today.isoformat():
-            return hist.viol("stamp-missing-in-index", _stamp_cause(info), step=step, key=list(key), index=n)
+        if n is None or n["modify"] != wants[y].isoformat():
+            cause = _stamp_cause(info) + ("|file-and-index-carry-different-days" if n is not None and n["modify"] in either_day else "")
+            return hist.viol("stamp-missing-in-index", cause, step=step, key=list(key), index=n, file_line=y)
     pages_with_both = {k[0] for k in S} & {k[0] for k in new}
     rec.probe("new-and-edited-note-on-one-page", len(pages_with_both))
     # file and index agree after stamping (restricted to processed pages + global ZID sanity)
@@ -291,8 +307,19 @@ def execute(case: dict, scratch: str) -> dict:
             candidates = paths or ob.list_pages(sim.zdir)
             model = predict(sim, sim.zdir, candidates, rec)
             before_files = {k: v.decode("utf-8") for k, v in ob.read_files(sim.zdir, (".zo",)).items()}
-            o = sim.run(real)
-            rec.proc(real, None, o, sim)
+            tick_from = None
+            if st.get("tick") is not None:
+                fault = {"kind": "midnight-tick", "after": st["tick"]}
+                o = sim.run(real, fault=fault)
+                if o.clock_reads > st["tick"]:
+                    tick_from = sim.day
+                    sim.day += 1  # the day has changed while the command ran
+                    rec.probe("fault:midnight-tick")
+                    rec.stat("days", 1)
+                rec.proc(real, fault, o, sim)
+            else:
+                o = sim.run(real)
+                rec.proc(real, None, o, sim)
         elif op == "edit":
             paths = _idx.resolve_paths(sim, st.get("paths"))
             if not paths:
@@ -309,6 +336,7 @@ def execute(case: dict, scratch: str) -> dict:
             model = predict(sim, shadow.zdir, ob.list_pages(shadow.zdir), rec)
             before_files = {k: v.decode("utf-8") for k, v in ob.read_files(shadow.zdir, (".zo",)).items()}
             shadow.destroy()
+            tick_from = None
             o = sim.run(real)
             rec.proc(real, None, o, sim)
             rec.probe("edit-session")
@@ -322,7 +350,7 @@ def execute(case: dict, scratch: str) -> dict:
         rec.stat("stamp-set-size", len(model["S"]))
         rec.stat("reindex-steps-checked")
         rec.probe("reindex-with-empty-stamp-set", int(not model["S"] and bool(model["processed"])))
-        v = check_after(sim, before_files, model, rec, i, scratch)
+        v = check_after(sim, before_files, model, rec, i, scratch, tick_from)
         if v:
             return rec.result(v)
         # an immediately following plain reindex stamps nothing
